@@ -42,8 +42,11 @@ def blob(ctx, name, length, kind="bytes"):
     """arbitrary bytes of the given (possibly symbolic) length"""
     if sym(ctx):
         return SymSeq([Piece(name, 0, toint(length))], kind)
-    b = pattern_bytes(name, int(length))
-    return b if kind == "bytes" else bytearray(b)
+    b = bytearray(pattern_bytes(name, int(length)))
+    for i, v in (ctx.values.get("arr!%s" % name) or {}).items():      # bytes the violating path looked at (solver model)
+        if 0 <= int(i) < len(b):
+            b[int(i)] = int(v)
+    return bytes(b) if kind == "bytes" else b
 
 
 def chars(ctx, name, n, lo=0, hi=255):
